@@ -29,21 +29,22 @@ TX_RE = re.compile(r"TX\[t=(\d+) c=(\d+) m=(\d+) k=(\S+) o=(\S+) p=(\S+?)( WRONG
 
 
 def canon(line):
-    """compare only what the property constrains: the diagnostic payload of an error reply the
-    library builds itself is free text; the listing of /.well-known/core is C20's subject"""
+    """Compare exactly what the property constrains.
+    * A case in which an application handler ran: everything (the handler's view of the request,
+      and "what it sets is what is sent": type, code, id, token, options, payload).
+    * A reply the library builds itself (error replies, the built-in /.well-known/core answer):
+      type, code, message id and token only.  Its options and payload are not the property's
+      business (diagnostic text, echoed options of a 4.02, the address in a 5.08, Content-Format /
+      ETag / Block2 and the listing of /.well-known/core: C20, C09) and other fixes to /repo may
+      legitimately change them.  Empty messages (code 0.00) must stay empty: compared in full."""
     if "H[" in line:
         return line
 
     def fix(m):
         t, c, mid, k, o, p, wd = m.groups()
-        c = int(c)
-        if c >= 128 or c == 66:
-            p = "*"
-        elif c == 69:
-            # built-in /.well-known/core answer (no application handler ran): its options
-            # (Content-Format, ETag, Block2) and listing are C20's / C09's subject
-            o, p = "*", "WK"
-        return "TX[t=%s c=%d m=%s k=%s o=%s p=%s%s]" % (t, c, mid, k, o, p, wd or "")
+        if int(c) != 0:
+            o, p = "*", "*"
+        return "TX[t=%s c=%s m=%s k=%s o=%s p=%s%s]" % (t, c, mid, k, o, p, wd or "")
     return TX_RE.sub(fix, line)
 
 
